@@ -9,6 +9,15 @@ CHECKS = {
  "C05": dict(tech="TLC model checking of Lexer.tla (Tiling, LineColDecl, Total) over all class strings; every behaviour replayed into tokenize_program; recorded token streams validated by LexerTrace.tla",
              text="Exhaustive within bounds: every character-class string up to length 4 (quick) / 5-6 (thorough) over four alphabets is lexed by the specification and by the implementation and compared lexeme by lexeme (span, kind, line, column); token streams of repository sources, their trivia / invalid-character / truncation mutants, token soup and random bytes are validated as behaviours of the position machine by TLC.",
              ref="DESIGN.md 3.1, 5/C05"),
+ "C11": dict(tech="TLC model checking of Lsp.tla (CacheCoherent, PublishExactlyOnce); all notification histories enumerated by TLC and replayed into fresh `ironplcc lsp --stdio` processes against a fresh-server diagnostics table; CLI equality per document state; random long histories validated by LspTrace.tla",
+             text="Exhaustive within bounds: every didOpen/didChange history up to length 3 (quick) / 4 (thorough) over 2 URIs x 5 texts is executed on the real server and compared frame by frame with the publishes the specification requires (document, version, content = function of the current document state as measured on fresh servers); the same contents are checked with `ironplcc check`; random histories up to length 40 are validated as behaviours of the specification by TLC.",
+             ref="DESIGN.md 3.6, 5/C11"),
+ "C12": dict(tech="TLC model checking of Lsp.tla safety + liveness (EventuallyAnswered under WF); all message sequences up to length 3 replayed into the real server; random interleavings up to length 60 validated by LspTrace.tla",
+             text="Exhaustive within bounds over the message alphabet of the property (didOpen, didChange with 0/1/2 changes, semantic-token and unknown requests, unknown notifications, client responses, unopened and non-file URIs), each sequence closed by shutdown and exit: replies, their ids, their order and the exit status must be exactly the specification's reply queue.",
+             ref="DESIGN.md 3.6, 5/C12"),
+ "C15": dict(tech="TLC model checking of the semantic-token codec in Lexer.tla; every class-string document replayed through `ironplcc lsp --stdio` inside edit histories and decoded against the specification's highlighted lexemes and class table",
+             text="Exhaustive within bounds at the lexical level: for every class string of the Lexer.tla configurations the server's response is decoded under the relative encoding and must be strictly increasing and equal (line, column, length, legend class) to the highlighted lexemes computed by the specification; invalid text must give a null result.",
+             ref="DESIGN.md 3.1, 5/C15"),
 }
 NA = {
 }
